@@ -18,7 +18,42 @@ macro_rules! opaque {
         impl Clone for $n { #[verifier::external_body] fn clone(&self) -> (r: Self) ensures r == *self { unimplemented!() } }
     )* } }
 }
-opaque!(Attach, Flow, Transfer, Disposition, Detach, Begin, Payload, AmqpError, ConnCtlTx, SessCtlRx, SessInRx, LinkFlow, TransactionId, InputHandle, ChanSendError);
+opaque!(Attach, Flow, Transfer, Disposition, Detach, Begin, Payload, AmqpError, SessCtlRx, LinkFlow, TransactionId, InputHandle, ChanSendError, LinkRelayS, OutputHandle, AllocLinkError, ConnectionError, AllocTxnIdError, Accepted, TransactionError);
+/// oneshot::Sender<T>: the answer either reaches the asker or comes back (the asker is gone)
+pub struct OneshotTx<T> { pub g: Ghost<Option<T>> }
+impl<T> OneshotTx<T> {
+    #[verifier::external_body]
+    pub fn send(self, v: T) -> (r: Result<(), T>) { unimplemented!() }
+}
+pub enum ConnectionControl { Close(Option<AmqpError>), GetMaxFrameSize(OneshotTx<usize>), Other }
+/// mpsc::Sender<ConnectionControl> towards the connection engine
+pub struct ConnCtlTx { pub sent: Ghost<Seq<ConnectionControl>> }
+impl ConnCtlTx {
+    #[verifier::external_body]
+    pub fn send(&mut self, c: ConnectionControl) -> (r: Result<(), ChanSendError>)
+        ensures r is Ok ==> final(self).sent@ == old(self).sent@.push(c), r is Err ==> final(self).sent@ == old(self).sent@,
+    { unimplemented!() }
+}
+#[verifier::external_body]
+pub fn amqp_error_new(condition: ConnectionError, description: Option<String>) -> (r: AmqpError) { unimplemented!() }
+#[verifier::external_body]
+pub fn alloc_err_into(e: Result<OutputHandle, AllocLinkError>) -> (r: Result<OutputHandle, AllocLinkError>) ensures r == e { unimplemented!() }
+//@@ type file=fe2o3-amqp/src/control.rs kind=enum name=SessionControl
+//@@ subst `Option<definitions::Error>` => `Option<AmqpError>` rule=R11
+//@@ subst `LinkRelay<()>` => `LinkRelayS` rule=R11
+//@@ subst `oneshot::Sender<` => `OneshotTx<` rule=R9
+//@@ end
+/// mpsc::Receiver<SessionIncomingItem>: what the connection engine still forwards to this session, in order; None = the connection engine is gone
+pub struct SessInRx { pub pending: Ghost<Seq<SessionFrame>>, pub taken: Ghost<Seq<SessionFrame>> }
+impl SessInRx {
+    #[verifier::external_body]
+    pub fn recv(&mut self) -> (r: Option<SessionFrame>)
+        ensures (match r {
+            Some(f) => old(self).pending@.len() > 0 && f == old(self).pending@[0] && final(self).pending@ == old(self).pending@.skip(1) && final(self).taken@ == old(self).taken@.push(f),
+            None => final(self).pending@ == old(self).pending@ && final(self).taken@ == old(self).taken@,
+        }),
+    { unimplemented!() }
+}
 #[derive(Clone, Copy, PartialEq, Eq)]
 pub struct IncomingChannel(pub u16);
 
@@ -54,6 +89,9 @@ impl From<SessionStateError> for SessionInnerError {
 }
 /// `impl From<SessionStateError> for SessionInnerError` (session/error.rs) maps variant-wise; the two that matter here:
 pub uninterp spec fn state_err_to_inner(e: SessionStateError) -> SessionInnerError;
+pub trait ErrInto<T>: Sized { spec fn conv(self) -> T; fn err_into(self) -> (r: T) ensures r == self.conv(); }
+impl ErrInto<SessionInnerError> for SessionInnerError { open spec fn conv(self) -> SessionInnerError { self } fn err_into(self) -> (r: SessionInnerError) { let e = self; assert(e == <SessionInnerError as ErrInto<SessionInnerError>>::conv(self)); e } }
+impl ErrInto<SessionInnerError> for SessionStateError { open spec fn conv(self) -> SessionInnerError { state_err_to_inner(self) } fn err_into(self) -> (r: SessionInnerError) { state_err_into(self) } }
 #[verifier::external_body]
 pub fn state_err_into(e: SessionStateError) -> (r: SessionInnerError) ensures r == state_err_to_inner(e) { unimplemented!() }
 
@@ -67,6 +105,8 @@ impl<T> OnceCell<T> {
         ensures match r { Some(v) => self.val() == Some(*v), None => self.val() is None },
     { unimplemented!() }
 }
+#[verifier::external_body]
+pub fn amqp_error(which: u8) -> (r: AmqpError) { unimplemented!() }
 #[verifier::external_body]
 pub fn connection_stop_reason_or_closed(cell: &OnceCell<ConnectionStopReason>) -> (r: ConnectionStopReason) { unimplemented!() }
 #[verifier::external_body]
@@ -105,6 +145,30 @@ pub open spec fn end_frame(ch: u16, error: Option<AmqpError>) -> SessionFrame {
     SessionFrame { channel: ch, body: SessionFrameBody::End(End { error }) }
 }
 impl SessS {
+    #[verifier::external_body]
+    pub fn allocate_link(&mut self, link_name: String, link_relay: Option<LinkRelayS>) -> (r: Result<OutputHandle, AllocLinkError>)
+        ensures final(self).st == old(self).st, final(self).ch == old(self).ch,
+    { unimplemented!() }
+    #[verifier::external_body]
+    pub fn allocate_incoming_link(&mut self, link_name: String, link_relay: LinkRelayS, input_handle: InputHandle) -> (r: Result<OutputHandle, AllocLinkError>)
+        ensures final(self).st == old(self).st, final(self).ch == old(self).ch,
+    { unimplemented!() }
+    #[verifier::external_body]
+    pub fn deallocate_link(&mut self, output_handle: OutputHandle)
+        ensures final(self).st == old(self).st, final(self).ch == old(self).ch,
+    { unimplemented!() }
+    #[verifier::external_body]
+    pub fn allocate_transaction_id(&mut self) -> (r: Result<TransactionId, AllocTxnIdError>)
+        ensures final(self).st == old(self).st, final(self).ch == old(self).ch,
+    { unimplemented!() }
+    #[verifier::external_body]
+    pub fn commit_transaction(&mut self, txn_id: TransactionId) -> (r: Result<Result<Accepted, TransactionError>, SessionInnerError>)
+        ensures final(self).st == old(self).st, final(self).ch == old(self).ch,
+    { unimplemented!() }
+    #[verifier::external_body]
+    pub fn rollback_transaction(&mut self, txn_id: TransactionId) -> (r: Result<Result<Accepted, TransactionError>, SessionInnerError>)
+        ensures final(self).st == old(self).st, final(self).ch == old(self).ch,
+    { unimplemented!() }
     pub fn local_state(&self) -> (r: &SessionState) ensures *r == self.st { &self.st }
     pub fn connection_stop_reason(&self) -> (r: &OnceCell<ConnectionStopReason>) ensures *r == self.conn_stop { &self.conn_stop }
     #[verifier::external_body]
@@ -115,6 +179,8 @@ impl SessS {
     #[verifier::external_body]
     pub fn on_incoming_begin(&mut self, channel: IncomingChannel, begin: Begin) -> (r: Result<(), SessionStateError>)
         ensures final(self).ch == old(self).ch,
+            // contract [C13.session.begin-received] of unit SESSION: a Begin is accepted in UNMAPPED / BEGIN-SENT only
+            !(old(self).st is Unmapped || old(self).st is BeginSent) ==> r is Err && final(self).st == old(self).st,
     { unimplemented!() }
     #[verifier::external_body]
     pub fn on_incoming_attach(&mut self, attach: Attach) -> (r: Result<(), SessionInnerError>)
@@ -265,6 +331,7 @@ impl SessionEngine {
     requires
         !(frame is Acquisition),    // ASSUMED: links never queue the (unimplemented) transactional acquisition marker; the arm is `unreachable!`
     ensures
+        final(self).incoming == old(self).incoming,
         !(old(self).session.st is Mapped || old(self).session.st is EndReceived) ==> r is Err && final(self).outgoing.sent@ == old(self).outgoing.sent@,   // [C13.session.no-link-frame-unless-mapped] once an End has been sent (EndSent / Discarding / Unmapped) or before the session is mapped, no link frame is put on the channel
         final(self).session.st == old(self).session.st && final(self).session.ch == old(self).session.ch && final(self).session.stop == old(self).session.stop,
         final(self).outgoing_link_frames == old(self).outgoing_link_frames,
@@ -295,13 +362,16 @@ impl SessionEngine {
             &&& final(self).outgoing_link_frames.queue@.len() == 0
             &&& r == Err::<Running, SessionInnerError>(state_err_to_inner(match incoming.body->End_0.error { Some(e) => SessionStateError::RemoteEndedWithError(e), None => SessionStateError::RemoteEnded }))   // [C13.session.peer-end-error] the error carried by the peer's end (or plain RemoteEnded) is what is reported, nothing else
         }),
+        final(self).incoming == old(self).incoming,
+        !(incoming.body is End) ==> final(self).outgoing_link_frames == old(self).outgoing_link_frames,
+        (old(self).session.st is EndSent || old(self).session.st is Discarding) && !(incoming.body is End) ==> final(self).session.st == old(self).session.st,
         (old(self).session.st is EndSent || old(self).session.st is Discarding) ==> final(self).outgoing.sent@ == old(self).outgoing.sent@,   // [C13.session.nothing-after-end] once the local End is out NOTHING follows it on the channel, whatever still arrives from the peer (a Flow that re-opens its window or asks for an echo, transfers that use up the incoming window, dispositions to be echoed)
         incoming.body is End && (old(self).session.st is EndSent || old(self).session.st is Discarding) ==>
             final(self).session.st is Unmapped && final(self).outgoing.sent@ == old(self).outgoing.sent@
             && (incoming.body->End_0.error is None ==> r == Ok::<Running, SessionInnerError>(Running::Stop)),       // [C13.session.end-completed] the peer's answer to our end completes the session: nothing more is sent and the engine stops
 //@@ loop 1
         invariant
-            self.outgoing_link_frames.closed@,
+            self.outgoing_link_frames.closed@, self.incoming == old(self).incoming,
             self.session.st is EndReceived, self.session.ch == old(self).session.ch,
             extended_without_end(old(self).outgoing.sent@, self.outgoing.sent@),
             self.outgoing.failures@ >= old(self).outgoing.failures@,
@@ -312,6 +382,122 @@ impl SessionEngine {
 //@@ loopend 1
                         proof { lemma_ext_trans(old(self).outgoing.sent@, sl, self.outgoing.sent@); }
 //@@ end
+//@@ fn file=fe2o3-amqp/src/session/engine.rs impl=`~impl<S>SessionEngine<S>whereS:endpoint::SessionEndpoint<State=SessionState>+SendBound+Sync+'static,` name=continue_or_stop_by_state
+//@@ orsplit
+//@@ spec
+    ensures (r is Stop) == (self.session.st is Unmapped || self.session.st is Discarding),
+//@@ end
+
+//@@ fn file=fe2o3-amqp/src/session/engine.rs impl=`~impl<S>SessionEngine<S>whereS:endpoint::SessionEndpoint<State=SessionState>+SendBound+Sync+'static,` name=wait_for_remote_end
+//@@ qmark
+//@@ attr #[verifier::exec_allows_no_decreases_clause]
+//@@ subst `.ok_or(SessionInnerError::ConnectionStopped( connection_stop_reason_or_closed(self.session.connection_stop_reason()), ))` => `.ok_or(SessionInnerError::ConnectionStopped(connection_stop_reason_or_closed(self.session.connection_stop_reason())))` rule=optional
+//@@ spec
+    requires
+        forall|i: int| 0 <= i < old(self).outgoing_link_frames.queue@.len() ==> !((#[trigger] old(self).outgoing_link_frames.queue@[i]) is Acquisition),
+        old(self).session.st is EndSent || old(self).session.st is Discarding,
+    ensures
+        final(self).outgoing.sent@ == old(self).outgoing.sent@,                              // [C13.session.nothing-after-end] while waiting for the peer's End nothing is written, whatever arrives
+        r is Ok ==> final(self).incoming.taken@.len() > old(self).incoming.taken@.len()
+            && final(self).incoming.taken@.last() == (SessionFrame { channel: r->Ok_0.0.0, body: SessionFrameBody::End(r->Ok_0.1) }),   // [C13.session.end-returns-after-peer-answer] the wait ends only with the peer's End (or with the connection gone: Err)
+//@@ loop 0
+        invariant
+            self.session.st is EndSent || self.session.st is Discarding,
+            self.outgoing.sent@ == old(self).outgoing.sent@,
+            self.incoming.taken@.len() >= old(self).incoming.taken@.len(),
+            forall|i: int| 0 <= i < self.outgoing_link_frames.queue@.len() ==> !((#[trigger] self.outgoing_link_frames.queue@[i]) is Acquisition),
+//@@ end
+
+//@@ fn file=fe2o3-amqp/src/session/engine.rs impl=`~impl<S>SessionEngine<S>whereS:endpoint::SessionEndpoint<State=SessionState>+SendBound+Sync+'static,` name=end_session
+//@@ qmark
+//@@ orsplit
+//@@ subst `&self.outgoing` => `&mut self.outgoing` rule=R9
+//@@ subst `|_v0|` => `|_v0: SessionStateError|` rule=R5
+//@@ subst `|_v1|` => `|_v1: SessionStateError|` rule=R5
+//@@ spec
+    requires
+        forall|i: int| 0 <= i < old(self).outgoing_link_frames.queue@.len() ==> !((#[trigger] old(self).outgoing_link_frames.queue@[i]) is Acquisition),
+    ensures
+        r is Ok ==> r->Ok_0 is Stop,
+        // at most one End, and none if one has been written before
+        (old(self).session.st is Mapped || old(self).session.st is EndReceived) ==>
+            final(self).outgoing.sent@ == old(self).outgoing.sent@.push(end_frame(old(self).session.ch, error))
+            || (final(self).outgoing.sent@ == old(self).outgoing.sent@ && r is Err),                                    // [C13.session.one-end] ending after an error writes exactly one End (carrying that error) ...
+        !(old(self).session.st is Mapped || old(self).session.st is EndReceived) ==> final(self).outgoing.sent@ == old(self).outgoing.sent@,   // [C13.session.one-end] ... and none at all when the End is already out or the session was never mapped
+        // it returns Ok only once the peer's End has been seen
+        (old(self).session.st is Mapped || old(self).session.st is EndSent || old(self).session.st is Discarding) && r is Ok ==>
+            final(self).incoming.taken@.len() > old(self).incoming.taken@.len() && final(self).incoming.taken@.last().body is End,     // [C13.session.end-returns-after-peer-answer]
+        old(self).session.st is Mapped && r is Ok ==> final(self).session.st is Unmapped,
+//@@ end
+
+//@@ fn file=fe2o3-amqp/src/session/engine.rs impl=`~impl<S>SessionEngine<S>whereS:endpoint::SessionEndpoint<State=SessionState>+SendBound+Sync+'static,` name=on_error
+//@@ orsplit
+//@@ subst `use definitions::Error;` => `` rule=R6
+//@@ subst `use fe2o3_amqp_types::transaction::TransactionError;` => `` rule=R6
+//@@ subst `Error::new(SessionError::UnattachedHandle, None, None)` => `amqp_error(1)` rule=R11
+//@@ subst `Error::new( AmqpError::InternalError, Some(String::from("Link name is not found")), None, )` => `amqp_error(2)` rule=R11
+//@@ subst `Error::new(SessionError::HandleInUse, None, None)` => `amqp_error(3)` rule=R11
+//@@ subst `Error::new(AmqpError::IllegalState, None, None)` => `amqp_error(4)` rule=R11
+//@@ subst `Error::new( AmqpError::NotAllowed, Some(String::from("Found Transfer frame sent Sender link")), None, )` => `amqp_error(5)` rule=R11
+//@@ subst `Error::new(TransactionError::UnknownId, None, None)` => `amqp_error(6)` rule=R11
+//@@ spec
+    requires
+        forall|i: int| 0 <= i < old(self).outgoing_link_frames.queue@.len() ==> !((#[trigger] old(self).outgoing_link_frames.queue@[i]) is Acquisition),
+    ensures
+        *kind is ConnectionStopped ==> r is Err && final(self).outgoing.sent@ == old(self).outgoing.sent@,              // [C13.session.connection-gone] nothing can be written any more
+        // any other failure ends the session: at most one End is written, and only if none was written before
+        final(self).outgoing.sent@ == old(self).outgoing.sent@
+            || ((old(self).session.st is Mapped || old(self).session.st is EndReceived) && final(self).outgoing.sent@.len() == old(self).outgoing.sent@.len() + 1
+                && final(self).outgoing.sent@.drop_last() =~= old(self).outgoing.sent@ && final(self).outgoing.sent@.last().body is End),   // [C13.session.one-end]
+        (*kind is RemoteEnded || *kind is RemoteEndedWithError) && final(self).outgoing.sent@.len() > old(self).outgoing.sent@.len()
+            ==> final(self).outgoing.sent@.last() == end_frame(old(self).session.ch, None),                            // [C13.session.peer-end-answered] the answer to a peer's End carries no error of our own
+        r is Ok ==> r->Ok_0 is Stop,
+//@@ end
+
+//@@ fn file=fe2o3-amqp/src/session/engine.rs impl=`~impl<S>SessionEngine<S>whereS:endpoint::SessionEndpoint<State=SessionState>+SendBound+Sync+'static,` name=session_stop_reason_from_connection
+//@@ subst `SessionStopReason::from(reason.clone())` => `stop_reason_from_conn(reason.clone())` rule=R16
+//@@ spec
+    ensures self.session.conn_stop.val() is None ==> r == SessionStopReason::Ended,
+//@@ end
+
+//@@ fn file=fe2o3-amqp/src/session/engine.rs impl=`~impl<S>SessionEngine<S>whereS:endpoint::SessionEndpoint<State=SessionState>+SendBound+Sync+'static,` name=on_control
+//@@ qmark
+//@@ attr #[verifier::loop_isolation(false)]
+//@@ subst `&self.outgoing` => `&mut self.outgoing` rule=R9
+//@@ subst `definitions::Error::new(condition, description, None)` => `amqp_error_new(condition, description)` rule=R11
+//@@ subst `result.map_err(Into::into)` => `alloc_err_into(result)` rule=R17
+//@@ spec
+    requires
+        forall|i: int| 0 <= i < old(self).outgoing_link_frames.queue@.len() ==> !((#[trigger] old(self).outgoing_link_frames.queue@[i]) is Acquisition),
+    ensures
+        // the application ends the session
+        control is End && old(self).session.st is Mapped && final(self).outgoing.failures@ == old(self).outgoing.failures@ ==> ({
+            let s0 = old(self).outgoing.sent@;
+            let s1 = final(self).outgoing.sent@;
+            &&& s1.len() > s0.len() && s1.last() == end_frame(old(self).session.ch, control->End_0)                    // [C13.session.end-frame] exactly one End, carrying the application's error if any, and it is the last frame ...
+            &&& extended_without_end(s0, s1.drop_last())                                                               // [C13.session.flush-before-end] ... after everything the links had already queued
+            &&& final(self).outgoing_link_frames.queue@.len() == 0
+            &&& final(self).session.st == (if control->End_0 is Some { SessionState::Discarding } else { SessionState::EndSent })
+        }),
+        control is End && !(old(self).session.st is Mapped || old(self).session.st is EndReceived) ==> r is Err && extended_without_end(old(self).outgoing.sent@, final(self).outgoing.sent@),   // [C13.session.one-end] a second end request (or one before the session is mapped) writes no End
+        (old(self).session.st is EndSent || old(self).session.st is Discarding) ==> final(self).outgoing.sent@ == old(self).outgoing.sent@,   // [C13.session.nothing-after-end] whatever is still asked of the session once its End is out (a disposition queued behind the end request by a transaction commit, a second end request), nothing is written
+        // nothing else the application asks for puts an End on the wire
+        !(control is End) ==> extended_without_end(old(self).outgoing.sent@, final(self).outgoing.sent@),              // [C13.session.controls-are-not-end]
+//@@ loop 0
+        invariant
+            self.outgoing_link_frames.closed@,
+            self.session.st == old(self).session.st, self.session.ch == old(self).session.ch,
+            extended_without_end(old(self).outgoing.sent@, self.outgoing.sent@),
+            (old(self).session.st is EndSent || old(self).session.st is Discarding) ==> self.outgoing.sent@ == old(self).outgoing.sent@,
+            self.outgoing.failures@ >= old(self).outgoing.failures@,
+            forall|i: int| 0 <= i < self.outgoing_link_frames.queue@.len() ==> !((#[trigger] self.outgoing_link_frames.queue@[i]) is Acquisition),
+        decreases self.outgoing_link_frames.queue@.len(),
+//@@ loopstart 0
+                    let ghost sl = self.outgoing.sent@;
+//@@ loopend 0
+                    proof { lemma_ext_trans(old(self).outgoing.sent@, sl, self.outgoing.sent@); }
+//@@ end
+
 }
 
 } // verus!
